@@ -30,6 +30,12 @@ type Exec struct {
 	Step    int // scheduler step (set through World.Step)
 	// session snapshot, for setup checks
 	Sess Session
+	// Sub holds, for EVAL/EVALSHA(_RO), one entry per redis.call / redis.pcall issued by the script body, in order
+	// (Argv, Reply as the script saw it before conversion to Lua, Seq). Entries are not in World.Log.
+	Sub []*Exec
+	// ScriptRuns is 1 when a script body actually started executing for this command (0 for NOSCRIPT, numkeys
+	// errors, compile errors and non-script commands).
+	ScriptRuns int
 }
 
 // Session is the per-connection state that connection setup is meant to establish.
@@ -95,7 +101,11 @@ type World struct {
 	Cluster  *Cluster
 	Sentinel *SentinelModel
 
-	LuaRun func(w *World, sc *SrvConn, script string, keys, args []string, ro bool) resp.Value
+	// ScriptReadsTrack makes read-only commands issued by a script remember their keys for the calling
+	// connection's client-side-caching tracking (what Redis 7 does). Off by default: see script.go.
+	ScriptReadsTrack bool
+
+	script *scriptRun // the script currently executing, if any (scripts are atomic: at most one)
 }
 
 // NewWorld creates an empty world.
@@ -121,6 +131,8 @@ type Node struct {
 	AZ             string
 	Loading        int // number of upcoming commands to answer with -LOADING
 	ClusterEnabled bool
+	ReplState      string // replicas: link state reported by ROLE: "" (= "connected"), "connect", "connecting", "sync", "connected"
+	ReplOffset     int64  // replication offset reported by ROLE / INFO / CLUSTER SHARDS; 0 = derived from the dataset's modification count
 	ghost          *SrvConn
 }
 
@@ -349,6 +361,13 @@ func (w *World) handle(sc *SrvConn, argv []string) {
 		e.Reply = v
 		sc.appendReply(e, v)
 	}
+	// Redis clears the ASKING flag after every command except ASKING itself, and keeps it
+	// for the whole transaction when it was set before MULTI (ASKING, MULTI, ..., EXEC).
+	defer func() {
+		if name != "ASKING" && !sc.multi {
+			sc.asking = false
+		}
+	}()
 
 	if w.Intercept != nil {
 		if v, ok := w.Intercept(sc, argv); ok {
@@ -374,6 +393,10 @@ func (w *World) handle(sc *SrvConn, argv []string) {
 	}
 	if !sc.Sess.Authed && name != "HELLO" && name != "AUTH" && name != "QUIT" {
 		finish(resp.Err("NOAUTH Authentication required."))
+		return
+	}
+	if v, rejected := w.Sentinel.rejects(sc, name, argv); rejected {
+		finish(v) // a sentinel does not have the data commands
 		return
 	}
 	spec, known := specs[name]
@@ -408,13 +431,12 @@ func (w *World) handle(sc *SrvConn, argv []string) {
 			if sc.multi {
 				sc.multiDirty = true
 			}
-			sc.asking = false
 			finish(v)
 			return
 		}
 	}
-	// replica write protection
-	if n.Role == "slave" && spec.write && !sc.inScript() {
+	// replica write protection (writes issued by scripts are refused in scriptHost.Call: handle only sees top-level commands)
+	if n.Role == "slave" && spec.write {
 		if sc.multi {
 			sc.multiDirty = true
 		}
@@ -459,9 +481,6 @@ func (w *World) handle(sc *SrvConn, argv []string) {
 	finish(v)
 	sc.inCommand = false
 	sc.flushDeferred()
-	if name != "ASKING" {
-		sc.asking = false
-	}
 	if !isSessionCmd(name) {
 		sc.UserCmds++
 	}
@@ -484,7 +503,8 @@ func hasCapa(sc *SrvConn, c string) bool {
 	return false
 }
 
-func (sc *SrvConn) inScript() bool { return false }
+// inScript reports whether this connection is currently executing a script body.
+func (sc *SrvConn) inScript() bool { s := sc.Node.W.script; return s != nil && s.sc == sc }
 
 func (sc *SrvConn) subCount() int { return len(sc.subs) + len(sc.psubs) + len(sc.ssubs) }
 
@@ -610,6 +630,11 @@ func (w *World) Tick() {
 
 // serveBlocked is called after a list push to wake blocked clients in FIFO order.
 func (w *World) serveBlocked(n *Node) {
+	if w.script != nil {
+		// Redis serves blocked clients after the whole script has finished
+		w.script.deferServe(n)
+		return
+	}
 	again := true
 	for again {
 		again = false
